@@ -35,11 +35,17 @@ type config struct {
 	// slowWrite later, so the primary is written that long after the call began: T3 counts from
 	// the write, not from the call (n = 1 only: a second sender would wait on the write lock)
 	SlowWrite bool `json:"slow_write,omitempty"`
+	// RetuneT3: the connection is built with T3 = 10 s and retuned to the 3 s of every other
+	// configuration by UpdateConfigOptions on the Selected session, before the sends start
+	RetuneT3 bool `json:"retune_t3,omitempty"`
 }
 
 func (c config) String() string {
 	if c.SlowWrite {
 		return fmt.Sprintf("active=%v equip=%v n=%d secs2=%d slow-write=%v", c.Active, c.Equip, c.N, c.Secs2, slowWrite)
+	}
+	if c.RetuneT3 {
+		return fmt.Sprintf("active=%v equip=%v n=%d secs2=%d T3 retuned 10s->%v on the live session", c.Active, c.Equip, c.N, c.Secs2, t3)
 	}
 	return fmt.Sprintf("active=%v equip=%v n=%d secs2=%d", c.Active, c.Equip, c.N, c.Secs2)
 }
@@ -209,6 +215,9 @@ func run(t *testing.T, cfg config, hist []event) (obs []stepObs, fail *failure, 
 		if cfg.SlowWrite {
 			o.Conn = append(o.Conn, hsms.WithWriteTimeout(10*time.Second))
 		}
+		if cfg.RetuneT3 {
+			o.Conn = append(o.Conn, hsms.WithT3(10*time.Second))
+		}
 		w.NewConn(o)
 		// two registered data handlers: "every registered handler once, in arrival order"
 		var seen [2][][]byte
@@ -217,7 +226,12 @@ func run(t *testing.T, cfg config, hist []event) (obs []stepObs, fail *failure, 
 				seen[h] = append(seen[h], append([]byte(nil), m.ToBytes()...))
 			})
 		}
-		if err := w.Establish(o); err != nil {
+		if err := w.Establish(o); err == nil && cfg.RetuneT3 {
+			if uerr := w.C.UpdateConfigOptions(hsms.WithT3(t3)); uerr != nil {
+				bad("harness", "UpdateConfigOptions(WithT3): %v", uerr)
+				return
+			}
+		} else if err != nil {
 			bad("harness", "establish: %v", err)
 			return
 		}
@@ -672,31 +686,36 @@ func plans(thorough bool) []plan {
 	roles := []struct{ a, e bool }{{false, false}, {true, true}, {false, true}, {true, false}}
 	if !thorough {
 		for _, r := range roles {
-			ps = append(ps, plan{config{r.a, r.e, 1, -1, false}, 3, 0})
+			ps = append(ps, plan{config{r.a, r.e, 1, -1, false, false}, 3, 0})
 		}
-		ps = append(ps, plan{config{false, false, 1, 0, false}, 3, 0})
+		ps = append(ps, plan{config{false, false, 1, 0, false, false}, 3, 0})
 		for _, r := range roles[2:] {
-			ps = append(ps, plan{config{r.a, r.e, 2, 1, false}, 2, 0})
+			ps = append(ps, plan{config{r.a, r.e, 2, 1, false, false}, 2, 0})
 		}
-		ps = append(ps, plan{config{false, false, 2, 1, false}, 3, 0}, plan{config{true, true, 2, 0, false}, 3, 0})
+		ps = append(ps, plan{config{false, false, 2, 1, false, false}, 3, 0}, plan{config{true, true, 2, 0, false, false}, 3, 0})
 		// the primary's write is held back 1.2 s by a closed peer window: T3 counts from the write
-		ps = append(ps, plan{config{false, false, 1, -1, true}, 3, 0}, plan{config{true, true, 1, 0, true}, 2, 0})
+		ps = append(ps, plan{config{false, false, 1, -1, true, false}, 3, 0}, plan{config{true, true, 1, 0, true, false}, 2, 0})
+		// T3 retuned on the live session
+		ps = append(ps, plan{config{false, false, 1, -1, false, true}, 3, 0}, plan{config{true, true, 2, 1, false, true}, 2, 0})
 		return ps
 	}
 	for _, r := range roles {
-		ps = append(ps, plan{config{r.a, r.e, 2, 1, false}, 3, 0})
+		ps = append(ps, plan{config{r.a, r.e, 2, 1, false, false}, 3, 0})
 	}
 	ps = append(ps,
-		plan{config{false, false, 1, 0, false}, 4, 0},
-		plan{config{true, true, 1, -1, false}, 4, 0},
-		plan{config{false, true, 3, 1, false}, 3, 0},
-		plan{config{true, false, 3, 2, false}, 3, 0},
-		plan{config{false, false, 2, 1, false}, 4, 1},
-		plan{config{true, true, 2, 0, false}, 4, 2},
-		plan{config{false, true, 3, 2, false}, 4, 2},
+		plan{config{false, false, 1, 0, false, false}, 4, 0},
+		plan{config{true, true, 1, -1, false, false}, 4, 0},
+		plan{config{false, true, 3, 1, false, false}, 3, 0},
+		plan{config{true, false, 3, 2, false, false}, 3, 0},
+		plan{config{false, false, 2, 1, false, false}, 4, 1},
+		plan{config{true, true, 2, 0, false, false}, 4, 2},
+		plan{config{false, true, 3, 2, false, false}, 4, 2},
 		// slow write (1.2 s): T3 counts from the write
-		plan{config{false, false, 1, -1, true}, 4, 0},
-		plan{config{true, true, 1, 0, true}, 3, 0},
+		plan{config{false, false, 1, -1, true, false}, 4, 0},
+		plan{config{true, true, 1, 0, true, false}, 3, 0},
+		// T3 retuned on the live session
+		plan{config{false, false, 1, -1, false, true}, 4, 0},
+		plan{config{true, true, 2, 1, false, true}, 3, 0},
 	)
 	return ps
 }
@@ -704,7 +723,7 @@ func plans(thorough bool) []plan {
 func TestCheck(t *testing.T) {
 	vfw.Main(t, "C06", func(c *vfw.Ctx) {
 		c.Level("model_checking")
-		c.Rule("Part E2 (tree search): Selected hsmsss connection (passive/active x host/equipment), T3 = 3 s, two registered data handlers, n in {1,2} (thorough {1,2,3}) reply-expected sends S1F(2i+1)W started at the same virtual instant (SendDataMessage, one of them SendSECS2Message; two extra n=1 configurations hold the primary's write back 1.2 s with a closed peer window, so that 'T3 after the primary was written' differs from 'T3 after the call began'), then EVERY peer history of length <= 3 (thorough: n=1 <= 4 full alphabet; n=2 <= 3 full and <= 4 with reject reasons {1,255} (second configuration: the reduced alphabet); n=3 <= 3 full and <= 4 over the reduced alphabet {reply, two replies, W primary, reject(1), Linktest.rsp, cancel} per transaction) over, per open transaction i: reply(i) [S1F(2i+2) W=0 sys_i], two replies in one segment, odd-function W=0 message with sys_i, primary with sys_i (W and non-W), Reject.req(sys_i, reason in {1,2,3,4,5,255}), Select.rsp/Deselect.rsp/Linktest.rsp carrying sys_i, caller-ctx cancel(i); and unsolicited secondary, advance(T3-1ms), advance(2ms), peerClose, Close() (nothing follows peerClose/Close; an implicit Close ends every history). After every event (synctest.Wait) the calls that have returned, their values and virtual return times, the per-handler delivery logs and the frames the library wrote are compared with a reference map of open transactions: exactly one of {the peer's reply frame byte-identical (secondary, own system bytes), *RejectError with the peer's reason, ErrT3Timeout at exactly write+T3, ErrConnClosed, ctx error}, returned exactly when an event completes the transaction, never (nil,nil); every inbound data frame to exactly one recipient (waiting sender XOR every handler once in arrival order; a duplicate of an answered transaction may vanish); library-generated system bytes distinct among open transactions. state = history prefix (a live connection cannot be cloned), non-trivial = history length >= 1")
+		c.Rule("Part E2 (tree search): Selected hsmsss connection (passive/active x host/equipment), T3 = 3 s, two registered data handlers, n in {1,2} (thorough {1,2,3}) reply-expected sends S1F(2i+1)W started at the same virtual instant (SendDataMessage, one of them SendSECS2Message; two extra n=1 configurations hold the primary's write back 1.2 s with a closed peer window, so that 'T3 after the primary was written' differs from 'T3 after the call began'; two more build the connection with T3 = 10 s and retune it to 3 s by UpdateConfigOptions on the Selected session before the sends: the T3 in force when a primary is written decides), then EVERY peer history of length <= 3 (thorough: n=1 <= 4 full alphabet; n=2 <= 3 full and <= 4 with reject reasons {1,255} (second configuration: the reduced alphabet); n=3 <= 3 full and <= 4 over the reduced alphabet {reply, two replies, W primary, reject(1), Linktest.rsp, cancel} per transaction) over, per open transaction i: reply(i) [S1F(2i+2) W=0 sys_i], two replies in one segment, odd-function W=0 message with sys_i, primary with sys_i (W and non-W), Reject.req(sys_i, reason in {1,2,3,4,5,255}), Select.rsp/Deselect.rsp/Linktest.rsp carrying sys_i, caller-ctx cancel(i); and unsolicited secondary, advance(T3-1ms), advance(2ms), peerClose, Close() (nothing follows peerClose/Close; an implicit Close ends every history). After every event (synctest.Wait) the calls that have returned, their values and virtual return times, the per-handler delivery logs and the frames the library wrote are compared with a reference map of open transactions: exactly one of {the peer's reply frame byte-identical (secondary, own system bytes), *RejectError with the peer's reason, ErrT3Timeout at exactly write+T3, ErrConnClosed, ctx error}, returned exactly when an event completes the transaction, never (nil,nil); every inbound data frame to exactly one recipient (waiting sender XOR every handler once in arrival order; a duplicate of an answered transaction may vanish); library-generated system bytes distinct among open transactions. state = history prefix (a live connection cannot be cloned), non-trivial = history length >= 1")
 		c.Rule("Part E1 (system bytes): one Selected connection, 2^16+10 consecutive SendDataMessage W sends with one transaction held open for the whole run and a sliding window of 3 open ones, interleaved with library Linktest.req (same counter): every system-bytes value read off the wire differs from every open transaction's and from every earlier one; the same for 2000 draws with the counter positioned (build-tag hook hsms.VerifC06SetSysBytes) 300 below 2^24, 2^31 and the 2^32 wrap, and 2 and 1 below the wrap")
 		c.Assume("testing/synctest virtual time and durable-blocking detection", "sim in-memory network", "no exact ties between a frame, a timer and a cancel (T3-1ms / T3+1ms; ties are engine E3's domain: partSched)", "reference = map of open transactions written from the property text; late replies (transaction ended by timeout/cancel/reject) must reach the handlers, duplicates of an answered transaction may vanish or reach them")
 		if c.Replay != nil {
